@@ -310,7 +310,8 @@ func main() {
 		"(input, fault position, fault mode) triples: inputs of the seven formats (x encodings, BOM, CRLF, ...) read through a reader that returns data up to the position and then a non-EOF error (persistent, or one error once and then another one persistently); "+
 			"non-trivial = the fault position is strictly inside the input and the source did return the fault; distinct by (variant, input bytes, position, mode)")
 	e := &env{sum: sum, variants: iox.Variants(), schemas: map[string]*iox.CapSchema{}}
-	e.cw = vh.NewCaseWriter(o, "C16", "Base.ErrClass Model.Fault", "fcase", "check_case")
+	e.cw = vh.NewCaseWriter(o, "C16", "Base.ErrClass Model.Chunk Model.Fault", "fcase", "Fault.check_case")
+	e.cw.PerFile = 80
 
 	if o.Replay != "" {
 		var rp struct {
